@@ -589,7 +589,8 @@ def replay_wrapper():
                 prev = None
                 if prev_k:
                     prev = types.SimpleNamespace(is_alive=lambda: prev_k == 1 and not joined, join=lambda: joined.append(1))
-                t = NetworkingThread(conn, previous=prev) if prev_k else NetworkingThread(conn)
+                t = NetworkingThread(conn)
+                t.previous_thread = prev
                 if prev_k:
                     conn.new_networking_thread = t
                 seen = []
